@@ -136,6 +136,10 @@ def generate(run_seed, tier):
         case = gen_params(rng, model)
         case.update(kind="F", model=model, gen=model, N=N1[tier], n1=N1[tier], by_bloc=True, seed=seed)
         case["decoy"] = rng.random() < 0.4  # a second live generator (same names, other numbers) is built before sampling
+        if model == "CambridgeSampler" and rng.random() < 0.5:
+            wc = list(case["slates"])
+            rng.shuffle(wc)
+            case["wc"] = wc  # explicit W / C roles, in either assignment
         return case
     if kind == "K":
         model = rng.choice(["name_BradleyTerry_MCMC", "slate_BradleyTerry_MCMC"])
